@@ -22,6 +22,15 @@ from .values import (NDArr, Store, Obj, ClsRef, FuncRef, Bound, Closure, ModRef,
 class Undecided(Exception):
     """the code left the accepted subset / the engine cannot model something: the function is undecided (never a violation)"""
 
+    def __init__(self, *a):
+        super().__init__(*a)
+        import os
+
+        if os.environ.get("PYVC_DEBUG"):  # development aid: where did the engine give up
+            import traceback
+
+            traceback.print_stack(limit=12)
+
 
 class PathEnd(Exception):
     """path is infeasible or was cut by an assumption"""
